@@ -1107,8 +1107,14 @@ class Agent(dbus.service.Object):
             return
 
         if ExtensionKey.SENDER_LISTEN in extmap:
-            interval_ms = int(extmap[ExtensionKey.SENDER_LISTEN])
+            interval_ms = extmap[ExtensionKey.SENDER_LISTEN]
             node_id = extmap.get(ExtensionKey.SENDER_NODEID, '')
+            if (not isinstance(interval_ms, int) or isinstance(interval_ms, bool)
+                    or not 0 <= interval_ms < 2 ** 31
+                    or not isinstance(node_id, str)):
+                # the values are signalled as int32 and string
+                self.__logger.error('Ignoring invalid Sender Listen %r from %r', interval_ms, node_id)
+                return
             self.__logger.info('Sender Listen for %d ms from %s', interval_ms, node_id)
 
             data = cbor2.dumps({
